@@ -24,10 +24,10 @@ pub(super) fn read_values(
 ) -> Result<Vec<Option<Value>>, DecodeError> {
     let value_ty = read_type(src)
         .map_err(DecodeError::InvalidType)?
-        .expect("unhandled type");
+        .ok_or(DecodeError::TypeMismatch)?;
 
     match (number, ty, value_ty) {
-        (Number::Count(0), _, _) => todo!("invalid number for type"),
+        (Number::Count(0), _, _) => Err(DecodeError::TypeMismatch),
 
         (_, _, Type::Int8(0) | Type::Int16(0) | Type::Int32(0) | Type::Float(0)) => {
             Err(DecodeError::InvalidLength)
@@ -63,7 +63,7 @@ pub(super) fn read_values(
             read_string_array_values(src, sample_count, n)
         }
 
-        _ => todo!("unhandled type"),
+        _ => Err(DecodeError::TypeMismatch),
     }
 }
 
@@ -78,7 +78,7 @@ fn read_i8_values(src: &mut &[u8], sample_count: usize) -> Result<Vec<Option<Val
         match value {
             Int8::Value(n) => values.push(Some(Value::from(i32::from(n)))),
             Int8::Missing => values.push(None),
-            _ => todo!("unhandled i8 value: {:?}", value),
+            _ => return Err(DecodeError::InvalidValue),
         }
     }
 
@@ -95,16 +95,16 @@ fn read_i8_array_values(
     for _ in 0..sample_count {
         let buf = read_i8s(src, len).map_err(DecodeError::InvalidRawValue)?;
 
-        let vs: Vec<_> = buf
-            .into_iter()
-            .map(Int8::from)
-            .filter_map(|value| match value {
-                Int8::Value(n) => Some(Some(i32::from(n))),
-                Int8::Missing => Some(None),
-                Int8::EndOfVector => None,
-                _ => todo!("unhandled i8 array value: {:?}", value),
-            })
-            .collect();
+        let mut vs = Vec::new();
+
+        for value in buf.into_iter().map(Int8::from) {
+            match value {
+                Int8::Value(n) => vs.push(Some(i32::from(n))),
+                Int8::Missing => vs.push(None),
+                Int8::EndOfVector => {}
+                _ => return Err(DecodeError::InvalidValue),
+            }
+        }
 
         if vs.len() == 1 && vs[0].is_none() {
             values.push(None);
@@ -130,7 +130,7 @@ fn read_i16_values(
         match value {
             Int16::Value(n) => values.push(Some(Value::from(i32::from(n)))),
             Int16::Missing => values.push(None),
-            _ => todo!("unhandled i16 value: {:?}", value),
+            _ => return Err(DecodeError::InvalidValue),
         }
     }
 
@@ -147,16 +147,16 @@ fn read_i16_array_values(
     for _ in 0..sample_count {
         let buf = read_i16s(src, len).map_err(DecodeError::InvalidRawValue)?;
 
-        let vs: Vec<_> = buf
-            .into_iter()
-            .map(Int16::from)
-            .filter_map(|value| match value {
-                Int16::Value(n) => Some(Some(i32::from(n))),
-                Int16::Missing => Some(None),
-                Int16::EndOfVector => None,
-                _ => todo!("unhandled i16 array value: {:?}", value),
-            })
-            .collect();
+        let mut vs = Vec::new();
+
+        for value in buf.into_iter().map(Int16::from) {
+            match value {
+                Int16::Value(n) => vs.push(Some(i32::from(n))),
+                Int16::Missing => vs.push(None),
+                Int16::EndOfVector => {}
+                _ => return Err(DecodeError::InvalidValue),
+            }
+        }
 
         if vs.len() == 1 && vs[0].is_none() {
             values.push(None);
@@ -182,7 +182,7 @@ fn read_i32_values(
         match value {
             Int32::Value(n) => values.push(Some(Value::from(n))),
             Int32::Missing => values.push(None),
-            _ => todo!("unhandled i32 value: {:?}", value),
+            _ => return Err(DecodeError::InvalidValue),
         }
     }
 
@@ -199,16 +199,16 @@ fn read_i32_array_values(
     for _ in 0..sample_count {
         let buf = read_i32s(src, len).map_err(DecodeError::InvalidRawValue)?;
 
-        let vs: Vec<_> = buf
-            .into_iter()
-            .map(Int32::from)
-            .filter_map(|value| match value {
-                Int32::Value(n) => Some(Some(n)),
-                Int32::Missing => Some(None),
-                Int32::EndOfVector => None,
-                _ => todo!("unhandled i32 array value: {:?}", value),
-            })
-            .collect();
+        let mut vs = Vec::new();
+
+        for value in buf.into_iter().map(Int32::from) {
+            match value {
+                Int32::Value(n) => vs.push(Some(n)),
+                Int32::Missing => vs.push(None),
+                Int32::EndOfVector => {}
+                _ => return Err(DecodeError::InvalidValue),
+            }
+        }
 
         if vs.len() == 1 && vs[0].is_none() {
             values.push(None);
@@ -234,7 +234,7 @@ fn read_f32_values(
         match value {
             Float::Value(n) => values.push(Some(Value::from(n))),
             Float::Missing => values.push(None),
-            _ => todo!("unhandled f32 value: {:?}", value),
+            _ => return Err(DecodeError::InvalidValue),
         }
     }
 
@@ -251,16 +251,16 @@ fn read_f32_array_values(
     for _ in 0..sample_count {
         let buf = read_f32s(src, len).map_err(DecodeError::InvalidRawValue)?;
 
-        let vs: Vec<_> = buf
-            .into_iter()
-            .map(Float::from)
-            .filter_map(|value| match value {
-                Float::Value(n) => Some(Some(n)),
-                Float::Missing => Some(None),
-                Float::EndOfVector => None,
-                _ => todo!("unhandled f32 array value: {:?}", value),
-            })
-            .collect();
+        let mut vs = Vec::new();
+
+        for value in buf.into_iter().map(Float::from) {
+            match value {
+                Float::Value(n) => vs.push(Some(n)),
+                Float::Missing => vs.push(None),
+                Float::EndOfVector => {}
+                _ => return Err(DecodeError::InvalidValue),
+            }
+        }
 
         if vs.len() == 1 && vs[0].is_none() {
             values.push(None);
@@ -296,11 +296,9 @@ fn read_char_values(
 
     for _ in 0..sample_count {
         let s = read_string_until_nul(src, len)?;
-        let c = s.chars().next().unwrap();
-
-        let value = match c {
-            MISSING => None,
-            _ => Some(Value::from(c)),
+        let value = match s.chars().next() {
+            None | Some(MISSING) => None,
+            Some(c) => Some(Value::from(c)),
         };
 
         values.push(value);
@@ -324,9 +322,9 @@ fn read_char_array_values(
 
         let value = Value::from(
             s.split(DELIMITER)
-                .map(|t| match t.chars().next().unwrap() {
-                    MISSING => None,
-                    c => Some(c),
+                .map(|t| match t.chars().next() {
+                    None | Some(MISSING) => None,
+                    Some(c) => Some(c),
                 })
                 .collect::<Vec<_>>(),
         );
@@ -423,7 +421,7 @@ pub(super) fn read_genotype_values(
                 }
             }
         },
-        ty => todo!("unhandled type: {:?}", ty),
+        _ => return Err(DecodeError::InvalidGenotype),
     }
 
     Ok(values)
@@ -473,6 +471,8 @@ pub enum DecodeError {
     InvalidRawValue(raw_value::DecodeError),
     InvalidString(str::Utf8Error),
     InvalidGenotype,
+    InvalidValue,
+    TypeMismatch,
 }
 
 impl error::Error for DecodeError {
@@ -494,6 +494,8 @@ impl fmt::Display for DecodeError {
             Self::InvalidRawValue(_) => write!(f, "invalid raw value"),
             Self::InvalidString(_) => write!(f, "invalid string"),
             Self::InvalidGenotype => write!(f, "invalid genotype"),
+            Self::InvalidValue => write!(f, "invalid value"),
+            Self::TypeMismatch => write!(f, "type mismatch"),
         }
     }
 }
